@@ -9,6 +9,10 @@ def run(ctx: Ctx) -> None:
     t11_expv.run_expflow(ctx)
     ctx.floor("T11x.expv", 50)
     ctx.floor("T11x.expflow", 12)
+    from ..tables import t67_transforms
+    with ctx.only("T67.inverse-velocity"), ctx.parallel():  # the inverse clause at the SVF transforms' displacement buffers
+        t67_transforms.run_inverse(ctx)
+    ctx.floor("T67.inverse-velocity", 30)
     e4(ctx, ["deepali.modules.flow"], only=lambda fi: fi.qualname.startswith("ExpFlow"))
 
 
